@@ -264,7 +264,7 @@ def r17f(model: Model, rr: RuleResult):
             if not ({A, B} <= names):
                 continue
             txts = [norm(e).replace(" ", "") for e in exprs]
-            sym = any(x in (f"{A}!={B}", f"{B}!={A}", f"{A}=={B}", f"{B}=={A}") for x in txts) or any(f"{A}^{B}" in x or f"{B}^{A}" in x or "symmetric_difference" in x for x in txts) \
+            sym = any(any(pat in x for pat in (f"{A}!={B}", f"{B}!={A}", f"{A}=={B}", f"{B}=={A}")) for x in txts) or any(f"{A}^{B}" in x or f"{B}^{A}" in x or "symmetric_difference" in x for x in txts) \
                 or (any(f"{A}-{B}" in x for x in txts) and any(f"{B}-{A}" in x for x in txts))
             one = any(f"{A}-{B}" in x or f"{B}-{A}" in x or "issubset" in x or "issuperset" in x or f"{A}<={B}" in x or f"{A}>={B}" in x for x in txts)
             if sym:
